@@ -6,7 +6,11 @@ pixel, and the geometric statement is checked on the output of the whole pipelin
 
 Space (configuration lattice): baselines on an integer lattice: start in {inside, near the top-left corner, partly outside},
 dx in 20..120, slopes within +-56 deg, 2..5 points with mid-point offsets in {0,+-1,+-2} px, heights, interpolation order
-{0 (cubic), 1, 2}, line height, scale; plus the degenerate set (vertical, single pixel, coincident points, zero heights).
+{0 (cubic), 1, 2}, line height, scale; plus the degenerate set (vertical, single pixel, coincident points, zero heights), each baseline of it held
+in an array and in every kind of plain python sequence.
+
+Space (histories): one cropper object along every sequence of length <= depth of public events (crop, get_crop_inputs with another target height,
+line_height / scale / poly set to another value); the crop that follows is compared with a cropper constructed with the configuration in force.
 """
 import itertools
 import math
@@ -17,7 +21,7 @@ ID = 'C10'
 
 MANIFEST = dict(
     technique='explicit-state enumeration of a baseline/heights/interpolation/line-height/scale lattice on the real cropper over a coordinate image (the crop is the sampled source coordinate of every output pixel); geometric oracle + fast-vs-general-path and shift differentials',
-    text='Bounded exhaustive: every baseline of the lattice (3 start positions x dx 20..120 x 9 slopes x 6 point configurations) x heights x interpolation order {0,1,2} x line height x scale (about 1.3e5 crops quick, 1.1e6 thorough). For each crop: exact height, width = length x target height / scaled line height, first/last column at the first/last baseline point, uniform column spacing, rows perpendicular and running linearly from -ascender to +descender, never the blank fallback; the partly-outside (general) path must agree with the same line shifted inside a larger canvas (fast path); degenerate baselines must give a crop or a blank image of the configured height, never an error (crop and LineCropper). Added sub-sweeps: baselines held as unsigned / int32 / float32 arrays, numpy zero heights, every line cropped twice, a long-lived cropper shared by all cases of a worker (same crop as a fresh one, earlier crops untouched), LineCropper on a shifted canvas, densely sampled baselines of 33-160 points, and a geometric decision whether blank samples of an inside line are a violation. Lines whose band touches the page by exactly one row / column / corner sample (fast vs general path), requested a second time with the same baseline array moved in place.',
+    text='Bounded exhaustive: every baseline of the lattice (3 start positions x dx 20..120 x 9 slopes x 6 point configurations) x heights x interpolation order {0,1,2} x line height x scale (about 1.3e5 crops quick, 1.1e6 thorough). For each crop: exact height, width = length x target height / scaled line height, first/last column at the first/last baseline point, uniform column spacing, rows perpendicular and running linearly from -ascender to +descender, never the blank fallback; the partly-outside (general) path must agree with the same line shifted inside a larger canvas (fast path); degenerate baselines must give a crop or a blank image of the configured height, never an error (crop and LineCropper). Added sub-sweeps: baselines held as unsigned / int32 / float32 arrays, numpy zero heights, every line cropped twice, a long-lived cropper shared by all cases of a worker (same crop as a fresh one, earlier crops untouched), LineCropper on a shifted canvas, densely sampled baselines of 33-160 points, and a geometric decision whether blank samples of an inside line are a violation. Lines whose band touches the page by exactly one row / column / corner sample (fast vs general path), requested a second time with the same baseline array moved in place. Baselines held in plain python sequences (list of lists / list of tuples / tuple of tuples, heights as list / tuple): every degenerate baseline x interpolation order x container through crop and LineCropper (never an error, same crop or same blank image as for an array - so the blank fallback is reached with every kind of argument), and ordinary lines of the lattice. One long-lived cropper along every history of length <= 2 (thorough: 3) over the 12 public events {crop, get_crop_inputs with target height 16/32/64, line_height := 16/32/64, scale := 0.8/1.5, poly := 0/1/2} x 3 lines x 6 initial configurations: the crop that follows has the height configured now and equals the crop of a cropper freshly constructed with the configuration in force; every requested grid has the requested height.',
     note='Integer baseline coordinates (the cropper truncates them); mild curvature only (tolerance grows with the distance of the points from their chord); tolerances: 0.3 px across, 1.5 px along the baseline for straight lines.',
     ref='3/C10')
 
@@ -32,8 +36,8 @@ POLYS = [0, 1, 2]
 LINE_H = [16, 32, 48, 64]
 SCALES = [0.8, 1.0, 1.5]
 BOUNDS = {
-    'quick': dict(dx=list(range(20, 121, 3)), heights=[0, 3], line_h=[16, 48], scales=[1.0, 1.5]),
-    'thorough': dict(dx=list(range(20, 121)), heights=[0, 1, 2, 3], line_h=[16, 32, 48, 64], scales=[0.8, 1.0, 1.5]),
+    'quick': dict(dx=list(range(20, 121, 3)), heights=[0, 3], line_h=[16, 48], scales=[1.0, 1.5], reconf_depth=[2]),
+    'thorough': dict(dx=list(range(20, 121)), heights=[0, 1, 2, 3], line_h=[16, 32, 48, 64], scales=[0.8, 1.0, 1.5], reconf_depth=[3]),
 }
 BOUNDS['replay'] = BOUNDS['quick']
 DEGENERATE = [
@@ -79,10 +83,46 @@ def shards(tier):
     out.append({'edge': True})
     for poly in POLYS:
         out.append({'dense': True, 'poly': poly})
+    for poly in POLYS:
+        for lh in RECONF_LH0:
+            out.append({'reconf': True, 'poly': poly, 'lh': lh})
     return out
 
 
 DENSE_N = [33, 64, 65, 66, 70, 90, 129, 160]          # densely sampled baselines (one point every second pixel), as CNN layout engines produce
+
+
+# what a caller may hold a baseline in: crop() / get_crop_inputs() take any array-like (they start with np.asarray), PAGE / ALTO importers and the
+# layout engines deliver arrays, scripts and JSON round trips deliver plain sequences
+CONTAINERS = ['ndarray', 'list-of-lists', 'list-of-tuples', 'tuple-of-tuples']
+
+
+def held_as(pts, kind):
+    if kind == 'ndarray':
+        return np.asarray(pts)
+    if kind == 'list-of-lists':
+        return [[int(c) for c in p] for p in pts]
+    if kind == 'list-of-tuples':
+        return [tuple(int(c) for c in p) for p in pts]
+    return tuple(tuple(int(c) for c in p) for p in pts)
+
+
+def maxdiff(a, b):
+    """largest absolute difference of two arrays of equal shape; NaN if either holds a NaN (compare with `not (d <= tol)`)"""
+    if a.size == 0:
+        return 0.0
+    return float(np.abs(np.asarray(a, dtype=np.float64) - np.asarray(b, dtype=np.float64)).max())
+
+
+# ---- one long-lived cropper along a HISTORY of public events (sub-sweep 'reconf'): every history of length 1..depth over this alphabet, then the
+# line is cropped and must be the crop a cropper freshly constructed with the configuration in force gives
+RECONF_LH0 = [16, 48]
+RECONF_LINES = [(0, 59, 1, 0), (0, 80, 4, 4), (2, 62, 1, 1)]        # (start, dx, slope index, point configuration): straight / curved 4 points / partly outside
+RECONF_EVENTS = [('crop',)] + [('grid', h) for h in (16, 32, 64)] + [('lh', h) for h in (16, 32, 64)] + [('scale', s) for s in (0.8, 1.5)] + \
+                [('poly', p) for p in (0, 1, 2)]
+RECONF_ATTR = {'lh': 'line_height', 'poly': 'poly', 'scale': 'scale'}
+RECONF_KIND = {'grid': 'a-sampling-grid-of-another-height-was-requested', 'lh': 'line_height-was-changed', 'scale': 'scale-was-changed',
+               'poly': 'interpolation-order-was-changed', 'crop': 'earlier-crops'}
 
 
 def baseline_points(start, dx, slope, pc, dense=None):
@@ -110,7 +150,14 @@ def run_shard(shard, ctx, tier):
     if shard.get('degenerate'):
         for di in range(len(DEGENERATE)):
             for poly in POLYS:
-                guarded_check(mod, {'degenerate': di, 'poly': poly}, ctx)
+                for ci in range(len(CONTAINERS)):
+                    guarded_check(mod, {'degenerate': di, 'poly': poly, 'as': ci}, ctx)
+        return
+    if shard.get('reconf'):
+        for li in range(len(RECONF_LINES)):
+            for depth in range(1, b['reconf_depth'][0] + 1):
+                for hist in itertools.product(range(len(RECONF_EVENTS)), repeat=depth):
+                    guarded_check(mod, {'reconf': list(hist), 'poly': shard['poly'], 'lh': shard['lh'], 'line': li}, ctx)
         return
     if shard.get('edge'):
         for ei in range(len(EDGE)):
@@ -169,7 +216,7 @@ def check_edge(case, ctx):
                       f'{desc}: the baseline array was shifted in place by ({ox},{oy}) and cropped again by the same cropper: {crop2.shape}, a fresh '
                       f'cropper gives {fresh.shape}' + ('' if crop2.shape != fresh.shape else f' (max difference {float(np.abs(crop2 - fresh).max())})'))
         return
-    if crop.shape[0] != lh or crop.shape != fresh.shape or np.abs(crop.astype(np.float64) - fresh.astype(np.float64)).max() > 0.2:
+    if crop.shape[0] != lh or crop.shape != fresh.shape or not (maxdiff(crop, fresh) <= 0.2):
         worst = float(np.abs(crop.astype(np.float64) - fresh.astype(np.float64)).max()) if crop.shape == fresh.shape else None
         ctx.violation('same-pixels-on-fast-and-general-path', f'{K}/shifted-crop-differs/band-touching-the-page-border',
                       f'{desc}: the crop from the page has {int((crop[:, :, 2] > 0.5).sum())} samples with page content, the crop of the same line '
@@ -191,34 +238,55 @@ def check_degenerate(case, ctx):
     if isinstance(heights, str):
         heights = np.zeros(2, dtype=np.float64)          # zero heights as numpy values (ALTO import, guessed heights)
     poly = case['poly']
-    ctx.state(('deg', name, poly))
+    kind = CONTAINERS[case.get('as', 0)]                # what the caller holds the baseline in
+    seq = kind != 'ndarray'
+    sfx = '/baseline-held-as-a-python-sequence' if seq else ''
+    hts = tuple(heights) if kind == 'tuple-of-tuples' else list(heights)
+    ctx.state(('deg', name, poly, kind))
     full_img = (coord_image()[:, :, :3] % 256).astype(np.uint8)
+    fell_back = False
     for lh, img in ((16, full_img), (48, full_img), (48, full_img[:40].copy())):      # last: a page strip lower than the configured line height
         eng = EngineLineCropper(line_height=lh, poly=poly, scale=1)
         try:
-            crop = eng.crop(img, np.asarray(pts), list(heights))
+            crop = eng.crop(img, held_as(pts, kind), hts)
         except Exception as e:  # noqa
-            ctx.violation('degenerate-never-an-error', f'{ID}/degenerate/{name}/crop-raises/{type(e).__name__}',
-                          f'EngineLineCropper(poly={poly}, line_height={lh}).crop raised {type(e).__name__}: {e} for baseline {pts}, heights {heights}')
+            ctx.violation('degenerate-never-an-error', f'{ID}/degenerate/{name}/crop-raises/{type(e).__name__}{sfx}',
+                          f'EngineLineCropper(poly={poly}, line_height={lh}).crop raised {type(e).__name__}: {e} for baseline {pts} (given as {kind}), '
+                          f'heights {heights}')
             return
         finally:
             ctx.executed()
         if crop.ndim != 3 or crop.shape[0] != lh:
             ctx.violation('degenerate-blank-of-configured-height', f'{ID}/degenerate/{name}/wrong-height',
-                          f'crop of degenerate baseline {pts} (poly={poly}) has shape {crop.shape}, configured height {lh}')
+                          f'crop of degenerate baseline {pts} (given as {kind}, poly={poly}) has shape {crop.shape}, configured height {lh}')
             return
+        if seq:
+            # the same line held in an array: same crop (or the same blank image) - whether a line is cropped or replaced by the blank
+            # image may not depend on what the caller keeps its points in
+            try:
+                ref = EngineLineCropper(line_height=lh, poly=poly, scale=1).crop(img, np.asarray(pts), list(heights))
+            except Exception:  # noqa  -- reported by the case that holds the baseline in an array
+                ref = None
+            ctx.executed()
+            if ref is not None and (ref.shape != crop.shape or not (maxdiff(ref, crop) <= 1)):
+                ctx.violation('degenerate-blank-of-configured-height', f'{ID}/degenerate/{name}/crop-depends-on-what-holds-the-baseline',
+                              f'baseline {pts}, heights {heights}, poly={poly}, line_height={lh}: given as {kind} the crop has shape {crop.shape}, '
+                              f'given as an array {ref.shape}' + ('' if ref.shape != crop.shape else f' (max difference {maxdiff(ref, crop)})'))
+                return
+            if crop.shape[1] == 32 and not crop.any():
+                fell_back = True
         cfg = configparser.ConfigParser()
         cfg['LINE_CROPPER'] = {'INTERP': str(poly), 'LINE_SCALE': '1', 'LINE_HEIGHT': str(lh)}
         lc = LineCropper(cfg['LINE_CROPPER'])
         page = PageLayout(id='p', page_size=img.shape[:2])
         reg = RegionLayout('r', np.zeros((4, 2)))
-        reg.lines.append(TextLine(id='l', baseline=np.asarray(pts), heights=list(heights)))
+        reg.lines.append(TextLine(id='l', baseline=held_as(pts, kind), heights=hts))
         page.regions.append(reg)
         try:
             lc.process_page(img, page)
         except Exception as e:  # noqa
-            ctx.violation('degenerate-never-an-error', f'{ID}/degenerate/{name}/LineCropper-raises/{type(e).__name__}',
-                          f'LineCropper(INTERP={poly}).process_page raised {type(e).__name__}: {e} for baseline {pts}, heights {heights}')
+            ctx.violation('degenerate-never-an-error', f'{ID}/degenerate/{name}/LineCropper-raises/{type(e).__name__}{sfx}',
+                          f'LineCropper(INTERP={poly}).process_page raised {type(e).__name__}: {e} for baseline {pts} (given as {kind}), heights {heights}')
             return
         finally:
             ctx.executed()
@@ -229,6 +297,87 @@ def check_degenerate(case, ctx):
             return
     ctx.outcome(('deg', name, crop.shape[1]))
     ctx.nontrivial(('deg', name, poly), 'degenerate-baselines')
+    if fell_back:
+        ctx.nontrivial(('deg', name, poly, kind), 'blank-fallback-of-a-baseline-held-as-a-python-sequence')
+
+
+def check_reconf(case, ctx):
+    """history on ONE cropper object: crops, sampling grids of other heights (get_crop_inputs is public: the ALTO export asks for 16 rows) and
+    changes of the public configuration attributes; the crop that follows must have the height configured NOW and equal the crop of a cropper
+    constructed with the configuration in force (the statement is quantified over configurations, not over how a cropper came to have one)"""
+    from pero_ocr.core.crop_engine import EngineLineCropper
+    st, dx, sl, pc = RECONF_LINES[case['line']]
+    pts = baseline_points(st, dx, SLOPES[sl], pc)
+    h_up, h_down = HEIGHTS[0]
+    cfg = {'lh': case['lh'], 'poly': case['poly'], 'scale': 1.0}
+    events = [RECONF_EVENTS[i] for i in case['reconf']]
+    ctx.state(('reconf', case['line'], case['lh'], case['poly'], tuple(case['reconf'])))
+    img = coord_image()
+    b = np.asarray(pts)
+
+    def hts():
+        return np.asarray([h_up, h_down], dtype=np.float64)
+
+    def fresh():
+        return EngineLineCropper(line_height=cfg['lh'], poly=cfg['poly'], scale=cfg['scale'])
+    eng = fresh()
+    told = []
+    sampled = False              # the cropper has computed a sampling grid already
+    reused = other_grid = False
+    last = 'crop'
+    for ev in events:
+        if ev[0] == 'crop':
+            eng.crop(img, b, hts())
+            ctx.executed()
+            sampled = True
+            told.append('crop')
+        elif ev[0] == 'grid':
+            g = eng.get_crop_inputs(b, hts(), ev[1])
+            ref = fresh().get_crop_inputs(b, hts(), ev[1])
+            ctx.executed(2)
+            told.append(f'get_crop_inputs(target_height={ev[1]})')
+            desc = f'baseline {pts}, heights {(h_up, h_down)}; cropper constructed with line_height={case["lh"]}, poly={case["poly"]}, scale=1.0; then ' + ', '.join(told)
+            if g.shape[0] != ev[1]:
+                ctx.violation('exact-height', f'{ID}/long-lived-cropper/get_crop_inputs/grid-has-not-the-requested-height',
+                              f'{desc}: the grid has shape {g.shape}, {ev[1]} rows were requested')
+                return
+            if g.shape != ref.shape or not (maxdiff(g, ref) <= 1e-3):
+                ctx.violation('same-crop-on-every-call', f'{ID}/long-lived-cropper/get_crop_inputs/grid-differs-from-a-fresh-cropper',
+                              f'{desc}: grid {g.shape}, a cropper freshly constructed with this configuration gives {ref.shape}'
+                              + ('' if g.shape != ref.shape else f' (max difference {maxdiff(g, ref)} px)'))
+                return
+            if ev[1] != cfg['lh']:
+                other_grid = True
+                last = 'grid'
+            sampled = True
+        else:
+            changed = cfg[ev[0]] != ev[1]
+            cfg[ev[0]] = ev[1]
+            setattr(eng, RECONF_ATTR[ev[0]], ev[1])             # the public configuration attributes (LineCropper reads crop_engine.line_height, too)
+            told.append(f'{RECONF_ATTR[ev[0]]} = {ev[1]}')
+            if changed:
+                last = ev[0]
+                reused = reused or sampled
+    crop = eng.crop(img, b, hts())
+    ref = fresh().crop(img, b, hts())
+    ctx.executed(2)
+    desc = (f'baseline {pts}, heights {(h_up, h_down)}; cropper constructed with line_height={case["lh"]}, poly={case["poly"]}, scale=1.0; then '
+            + ', '.join(told) + f'; then the line is cropped (configuration in force: line_height={cfg["lh"]}, poly={cfg["poly"]}, scale={cfg["scale"]})')
+    kind = RECONF_KIND[last]
+    if crop.ndim != 3 or crop.shape[0] != cfg['lh']:
+        ctx.violation('exact-height', f'{ID}/long-lived-cropper/after-{kind}/crop-has-not-the-configured-height',
+                      f'{desc}: the crop has shape {crop.shape}, configured height {cfg["lh"]}')
+        return
+    if crop.shape != ref.shape or not (maxdiff(crop, ref) <= 0.2):
+        ctx.violation('same-crop-on-every-call', f'{ID}/long-lived-cropper/after-{kind}/crop-differs-from-a-fresh-cropper',
+                      f'{desc}: crop {crop.shape}, a cropper freshly constructed with the configuration in force gives {ref.shape}'
+                      + ('' if crop.shape != ref.shape else f' (max difference {maxdiff(crop, ref)})'))
+        return
+    ctx.outcome(('reconf', crop.shape[0], crop.shape[1]))
+    if reused:
+        ctx.nontrivial(('reconf', case['line'], case['lh'], case['poly'], tuple(case['reconf'])), 'cropper-reused-after-its-configuration-changed')
+    if other_grid:
+        ctx.nontrivial(('reconf-grid', case['line'], case['lh'], case['poly'], tuple(case['reconf'])), 'crop-after-a-sampling-grid-of-another-height')
 
 
 def check_case(case, ctx):
@@ -236,6 +385,8 @@ def check_case(case, ctx):
         return check_degenerate(case, ctx)
     if 'edge' in case:
         return check_edge(case, ctx)
+    if 'reconf' in case:
+        return check_reconf(case, ctx)
     import cv2
     from pero_ocr.core.crop_engine import EngineLineCropper
     pts = baseline_points(case['start'], case['dx'], SLOPES[case['slope']], case['pc'], dense=case.get('dense'))
@@ -327,15 +478,15 @@ def check_case(case, ctx):
     if not mild:
         ctx.tag('strong-curvature-only-weak-clauses')
     if full and W >= 3 and mild:
-        if np.hypot(*(B[0] - P[0])) > 1.0 + dev:
+        if not (np.hypot(*(B[0] - P[0])) <= 1.0 + dev):
             bad, kind = f'first column sits at {B[0].round(2)}, first baseline point is {P[0]}', 'first-column-not-at-first-point'
-        elif np.hypot(*(B[-1] - P[-1])) > 2.0 + dev:
+        elif not (np.hypot(*(B[-1] - P[-1])) <= 2.0 + dev):
             bad, kind = f'last column sits at {B[-1].round(2)}, last baseline point is {P[-1]}', 'last-column-not-at-last-point'
         else:
             sp = np.hypot(*(B[1:] - B[:-1]).T)
-            if np.abs(sp - sp.mean()).max() > 0.06 * sp.mean() + 0.05:
+            if not (np.abs(sp - sp.mean()).max() <= 0.06 * sp.mean() + 0.05):
                 bad, kind = f'column spacing along the baseline varies between {sp.min():.3f} and {sp.max():.3f}', 'columns-not-uniform'
-            elif np.abs((B - P[0]) @ n).max() > 1.5 * dev + 1.0:
+            elif not (np.abs((B - P[0]) @ n).max() <= 1.5 * dev + 1.0):
                 bad, kind = f'baseline samples stray {np.abs((B - P[0]) @ n).max():.2f} px from the chord', 'baseline-strays'
     if not bad and mild:
         for j in [c for c in cols if 0 < c < W - 1 and (c - 1) in cols and (c + 1) in cols][::max(1, W // 16)]:
@@ -345,7 +496,7 @@ def check_case(case, ctx):
             d = XY[:, j] - B[j]
             across, along = d @ nj, d @ T
             tol = 0.3 + 0.03 * amax
-            if np.abs(across - off).max() > tol or np.abs(along).max() > tol + 0.05:
+            if not (np.abs(across - off).max() <= tol and np.abs(along).max() <= tol + 0.05):
                 # known defect pattern: the "normal" is the tangent mirrored at the chord normal, (f', 1) instead of (-f', 1)
                 sin_t, cos_t = float(T @ n), float(T @ u)
                 s2, c2 = 2 * sin_t * cos_t, cos_t * cos_t - sin_t * sin_t          # predicted: along = off*sin(2t), across = off*cos(2t)
@@ -355,7 +506,7 @@ def check_case(case, ctx):
                     bad = (f'column {j}: the rows are not perpendicular to the baseline (drift {np.abs(along).max():.2f} px along it at the first/last '
                            f'row); they follow the tangent mirrored about the chord normal, local slope {sin_t / cos_t:.3f}')
                     kind = 'mirrored-normal-on-curved-baseline'
-                elif np.abs(along).max() > tol + 0.05:
+                elif not (np.abs(along).max() <= tol + 0.05):
                     bad = f'column {j}: rows drift {np.abs(along).max():.2f} px along the baseline (not perpendicular)'
                     kind = 'rows-not-perpendicular'
                 else:
@@ -366,7 +517,7 @@ def check_case(case, ctx):
             if dev == 0 and full:
                 t = float((B[j] - P[0]) @ u)
                 t_expected = L * j / max(W - 1, 1)
-                if abs(t - t_expected) > 1.5:
+                if not (abs(t - t_expected) <= 1.5):
                     bad = f'column {j} sits at arc position {t:.2f}, uniform advance from the first to the last point puts it at {t_expected:.2f}'
                     kind = 'columns-not-uniform-first-to-last'
                     break
@@ -385,11 +536,20 @@ def check_case(case, ctx):
         for dt in (np.uint16, np.uint32, np.int32, np.float32):
             other = eng.crop(img, np.asarray(pts, dtype=dt), [h_up, h_down])
             ctx.executed()
-            if other.shape != crop.shape or np.abs(other.astype(np.float64) - crop.astype(np.float64)).max() > 1e-3:
+            if other.shape != crop.shape or not (maxdiff(other, crop) <= 1e-3):
                 ctx.violation('samples-the-band', f'{K}/crop-depends-on-baseline-dtype',
                               f'{desc}: the same baseline given as {np.dtype(dt).name} array yields a different crop ({other.shape} vs {crop.shape})')
                 return
         ctx.tag('baseline-dtypes')
+        # ... or in a plain python sequence (crop / get_crop_inputs take any array-like)
+        for kind in ('list-of-lists', 'tuple-of-tuples'):
+            other = eng.crop(img, held_as(pts, kind), (h_up, h_down) if kind == 'tuple-of-tuples' else [h_up, h_down])
+            ctx.executed()
+            if other.shape != crop.shape or not (maxdiff(other, crop) <= 1e-3):
+                ctx.violation('samples-the-band', f'{K}/crop-depends-on-what-holds-the-baseline',
+                              f'{desc}: the same baseline given as {kind} yields a different crop ({other.shape} vs {crop.shape})')
+                return
+        ctx.tag('baseline-held-as-a-python-sequence')
     # general path (partly outside) vs fast path (same line inside a larger canvas): same pixels
     if case['start'] in (1, 2) and case['h'] == 0:
         ox, oy = 60, 50
@@ -406,7 +566,7 @@ def check_case(case, ctx):
             # between two neighbouring values (one column, or one source sample = `scale` columns); accepted as round-off and counted,
             # anything else is a violation
             ctx.tag('skipped-width-differs-by-one-roundoff')
-        elif crop2.shape != crop.shape or np.abs(crop2.astype(np.float64) - crop.astype(np.float64)).max() > 0.2:
+        elif crop2.shape != crop.shape or not (maxdiff(crop2, crop) <= 0.2):
             worst = float(np.abs(crop2.astype(np.float64) - crop.astype(np.float64)).max()) if crop2.shape == crop.shape else None
             ctx.violation('same-pixels-on-fast-and-general-path', f'{K}/shifted-crop-differs',
                           f'{desc}: cropping the line from the page shifted by ({ox},{oy}) inside a larger canvas gives different pixels '
@@ -440,7 +600,7 @@ def check_case(case, ctx):
                     l3 = TextLine(id='l3', baseline=moved.copy(), heights=[h_up, h_down])
                     LineCropper(cfg['LINE_CROPPER']).crop_lines(image, [l3])
                     ctx.executed(2)
-                    if again is None or again.shape != l3.crop.shape or np.abs(again.astype(np.float64) - l3.crop.astype(np.float64)).max() > 1e-3:
+                    if again is None or again.shape != l3.crop.shape or not (maxdiff(again, l3.crop) <= 1e-3):
                         ctx.violation('samples-the-band', f'{ID}/LineCropper/process_page/second-pass-keeps-the-crop-of-the-old-baseline',
                                       f'{desc}: after the baseline was moved to {moved.tolist()} and the page cropped again, the line does not carry the crop of '
                                       f'its current baseline')
@@ -456,7 +616,7 @@ def check_case(case, ctx):
                 a_, b_ = res[0][k], res[1][k]
                 if a_.shape != b_.shape and abs(a_.shape[1] - b_.shape[1]) == 1 and a_.shape[0] == b_.shape[0]:
                     continue
-                if a_.shape != b_.shape or np.abs(a_.astype(np.float64) - b_.astype(np.float64)).max() > 0.2 or \
+                if a_.shape != b_.shape or not (maxdiff(a_, b_) <= 0.2) or \
                         a_.shape != crop.shape and abs(a_.shape[1] - crop.shape[1]) > 1:
                     ctx.violation('same-pixels-on-fast-and-general-path', f'{ID}/LineCropper/{which}/shifted-crop-differs',
                                   f'{desc}: LineCropper.{which} gives a crop of shape {a_.shape} from the page and {b_.shape} from the shifted canvas '
@@ -469,7 +629,7 @@ def check_case(case, ctx):
         full = cv2.remap(img, coords[:, :, 0], coords[:, :, 1], interpolation=cv2.INTER_LINEAR, borderMode=cv2.BORDER_CONSTANT)
         fast = eng.fast_remap(img, coords)
         ctx.executed(2)
-        if fast.shape != full.shape or np.abs(fast - full).max() > 0.1:
+        if fast.shape != full.shape or not (maxdiff(fast, full) <= 0.1):
             ctx.violation('same-pixels-on-fast-and-general-path', f'{K}/fast_remap-differs-from-full-remap',
                           f'{desc}: max difference {float(np.abs(fast - full).max()) if fast.shape == full.shape else None}')
             return
@@ -483,15 +643,21 @@ def describe(tier):
     b = BOUNDS[tier]
     return {
         'rule': 'all combinations start(3) x dx x slope(9) x point configuration(6) x heights x poly(3) x line height x scale; degenerate set (10 baselines '
-                'x 3 interpolation orders x crop/LineCropper). state = distinct (baseline, heights, line height, scale, poly). Non-trivial: baselines whose '
+                'x 3 interpolation orders x 4 containers of the baseline x crop/LineCropper); histories of one cropper: all sequences of length 1..depth over '
+                '12 public events (crop, sampling grid of another height, line_height / scale / poly changed) x 3 lines x 2 initial heights x 3 orders. '
+                'state = distinct (baseline, heights, line height, scale, poly) resp. (line, initial configuration, history). Non-trivial: baselines whose '
                 'inner points deviate from the chord (curve fitting matters); counters for cubic>=4 points, general-vs-fast path, fast_remap-vs-full.',
         'bounds': {k: (v if len(v) < 12 else f'{v[0]}..{v[-1]} step {v[1] - v[0]}') for k, v in b.items()},
         'alphabets': {'starts': STARTS, 'slopes': SLOPES, 'point_cfgs': POINTCFG, 'heights': HEIGHTS, 'polys': POLYS,
-                      'degenerate': [d[0] for d in DEGENERATE]},
+                      'degenerate': [d[0] for d in DEGENERATE], 'baseline_containers': CONTAINERS,
+                      'cropper_events': [list(e) for e in RECONF_EVENTS], 'cropper_history_lines': [list(l) for l in RECONF_LINES],
+                      'cropper_initial_line_heights': RECONF_LH0},
         'assumptions': ['bilinear remap of a coordinate image reproduces the sampling position within 1/32 px',
                         'the last column may fall up to 1 px short of the last baseline point (integer sampling of the baseline)',
                         'for degenerate baselines both a proper crop and a blank image of the configured height are accepted'],
         'min_nontrivial': 100,
         'required_tags': ['band-touching-the-page-by-one-row-or-column', 'baseline-array-moved-in-place', 'consecutive-crops-of-equal-shape', 'baselines-with-more-than-64-points', 'curved-baselines', 'cubic-with-4-or-more-points', 'general-path-vs-fast-path', 'fast-path-vs-full-remap',
-                          'degenerate-baselines', 'cropped-twice', 'line-cropper-partly-outside', 'baseline-dtypes', 'page-cropped-again-after-the-layout-changed'],
+                          'degenerate-baselines', 'cropped-twice', 'line-cropper-partly-outside', 'baseline-dtypes', 'page-cropped-again-after-the-layout-changed',
+                          'baseline-held-as-a-python-sequence', 'blank-fallback-of-a-baseline-held-as-a-python-sequence',
+                          'cropper-reused-after-its-configuration-changed', 'crop-after-a-sampling-grid-of-another-height'],
     }
